@@ -39,6 +39,9 @@ struct Db : public resolvo::DependencyProvider {
     std::vector<std::vector<resolvo::VersionSetId>> unions;
     std::vector<std::string> strings;
     uint64_t callbacks = 0;
+    // scratch vectors reused across callbacks (size < capacity after clear())
+    resolvo::Vector<resolvo::SolvableId> scratch, scratch_c;
+    uint64_t slack_vectors = 0;
 
     std::string solv_str(uint32_t s) {
         std::stringstream ss;
@@ -89,7 +92,14 @@ struct Db : public resolvo::DependencyProvider {
         r.favored = nullptr;
         r.locked = nullptr;
         if (p.missing) return r;
-        for (auto c : p.cands) r.candidates.push_back(resolvo::SolvableId{c});
+        if (callbacks % 2 == 0) {
+            scratch_c.clear();
+            for (auto c : p.cands) scratch_c.push_back(resolvo::SolvableId{c});
+            if (scratch_c.size() < scratch_c.capacity()) slack_vectors++;
+            r.candidates = scratch_c;
+        } else {
+            for (auto c : p.cands) r.candidates.push_back(resolvo::SolvableId{c});
+        }
         for (auto h : p.hint) r.hint_dependencies_available.push_back(resolvo::SolvableId{h});
         for (auto& e : p.excl)
             r.excluded.push_back(resolvo::ExcludedSolvable{resolvo::SolvableId{e.first}, resolvo::StringId{e.second}});
@@ -114,8 +124,19 @@ struct Db : public resolvo::DependencyProvider {
     resolvo::Vector<resolvo::SolvableId> filter_candidates(resolvo::Slice<resolvo::SolvableId> c, resolvo::VersionSetId v,
                                                            bool inverse) override {
         callbacks++;
-        resolvo::Vector<resolvo::SolvableId> r;
         const auto& vs = vsets[v.id];
+        if (callbacks % 3 != 0) {
+            // a provider that reuses a scratch member: clear() keeps the capacity of a uniquely
+            // owned vector, so vectors with size < capacity cross the boundary
+            scratch.clear();
+            for (auto s : c) {
+                bool m = vs.match.count(s.id) > 0;
+                if (m != inverse) scratch.push_back(s);
+            }
+            if (scratch.size() < scratch.capacity()) slack_vectors++;
+            return scratch;
+        }
+        resolvo::Vector<resolvo::SolvableId> r;
         for (auto s : c) {
             bool m = vs.match.count(s.id) > 0;
             if (m != inverse) r.push_back(s);
@@ -149,7 +170,7 @@ int main(int argc, char** argv) {
     resolvo::Vector<resolvo::VersionSetId> cons;
     resolvo::Vector<resolvo::SolvableId> soft;
     std::string line;
-    uint64_t solved = 0, callbacks = 0;
+    uint64_t solved = 0, callbacks = 0, slack = 0;
     // the result vector is reused across problems in three ways: fresh, still owning the storage
     // of the previous solution, and sharing that storage with a copy the caller kept
     resolvo::Vector<resolvo::SolvableId> result;
@@ -159,7 +180,7 @@ int main(int argc, char** argv) {
         std::stringstream ls(line);
         ls >> tok;
         if (tok == "U") {
-            if (db) callbacks += db->callbacks;
+            if (db) { callbacks += db->callbacks; slack += db->slack_vectors; }
             delete db;
             db = new Db();
             size_t a, b, c, d, e;
@@ -299,7 +320,8 @@ int main(int argc, char** argv) {
         }
     }
     if (db) callbacks += db->callbacks;
+    if (db) slack += db->slack_vectors;
     delete db;
-    std::cerr << "solved=" << solved << " callbacks=" << callbacks << "\n";
+    std::cerr << "solved=" << solved << " callbacks=" << callbacks << " vectors_with_slack_returned=" << slack << "\n";
     return 0;
 }
